@@ -1,7 +1,11 @@
 (** C08 - Resolver.glob returns exactly the nodes a wildcard pattern denotes.
-    Partial: the matcher, the cache and the known-finding class are proved /
-    refuted in Coq; the denotation clauses are decided by evaluating [den] on
-    the implementation's observed results.  Only statements. *)
+    Proved: the matcher against the declarative wildcard relation, the cache
+    (transparency, history independence), relaxed mode (total, exactly the
+    denotation, pre-order, duplicate-freeness under the statement's guard) and
+    the agreement of strict mode with get on wildcard-free paths over
+    sibling-unique names.  The clause "strict mode returns the same list or
+    raises" is FALSE of the faithful model (known finding KF-C08-1): refutation
+    witness.  Only statements; proofs are [exact <lemma>] or computations. *)
 Require Import AT.Model.Base AT.Model.Rose AT.Model.Nav AT.Model.Resolver AT.Spec.ResolverSpec.
 Require AT.Proofs.GlobProofs AT.Proofs.GlobDen AT.Proofs.GlobOrder AT.Proofs.IterOrder AT.Proofs.GlobGet.
 Import AT.Proofs.GlobProofs.
